@@ -90,6 +90,9 @@ func c20SchedSignature(f c20SchedFailure) string {
 	if f.Kind == "panic" && c20StripLine(f.Thread) == "consumeEvents" && msg == "send on closed channel" {
 		return "C20/consume-events-send-on-closed-channel"
 	}
+	if f.Kind == "livelock" {
+		return "" // never explained by a listed defect
+	}
 	return ""
 }
 
@@ -98,21 +101,29 @@ type c20Plan struct {
 	bound      int
 	freeSwitch bool
 	maxExec    int
+	need       string // non-vacuity: some explored schedule must end in an outcome class containing one of these (|-separated)
 }
 
 func c20Plans(thorough bool) []c20Plan {
 	var out []c20Plan
-	names := []string{"S1", "S2", "S3", "S4", "S5", "S6"}
+	names := []string{"S1", "S2", "S3", "S4", "S5", "S6-", "S7", "S8-", "S8b", "S9"}
 	for _, n := range names {
-		if thorough {
-			out = append(out, c20Plan{scenario: n, bound: 3})
-		} else {
-			out = append(out, c20Plan{scenario: n, bound: 2})
+		need := "got=1|:got"
+		if n[1] >= '7' {
+			need = "uninstalled=true"
 		}
+		b := 2
+		if thorough {
+			b = 3
+		}
+		if !thorough && n == "S3" {
+			b = 2
+		}
+		out = append(out, c20Plan{scenario: n, bound: b, need: need})
 	}
 	if thorough {
 		// CHESS cost model (switching is free whenever the running thread blocks) on the smallest systems
-		out = append(out, c20Plan{scenario: "S1", bound: 0, freeSwitch: true}, c20Plan{scenario: "S6", bound: 1, freeSwitch: true})
+		out = append(out, c20Plan{scenario: "S1", bound: 0, freeSwitch: true, need: "got="}, c20Plan{scenario: "S6-", bound: 1, freeSwitch: true, need: ":got|topics-after"})
 	}
 	return out
 }
@@ -167,14 +178,16 @@ func c20Sched(run *ev.Run) {
 			for i := int64(0); i < n && i < 1; i++ {
 				run.Outcome("sched:" + c20OutcomeClass(oc))
 			}
-			if strings.Contains(oc, "got=1") || strings.Contains(oc, ":got") {
-				delivered = true
+			for _, want := range strings.Split(p.need, "|") {
+				if want != "" && strings.Contains(oc, want) {
+					delivered = true
+				}
 			}
 		}
 		sort.Strings(ocs)
 		if !delivered {
 			// non-vacuity: in some explored schedule a subscriber must actually receive an event
-			fmt.Fprintf(os.Stderr, "HARNESS: sched %s is vacuous: no explored schedule delivers an event to a subscriber (%v)\n", s.Scenario, ocs)
+			fmt.Fprintf(os.Stderr, "HARNESS: sched %s is vacuous: no explored schedule reaches an outcome containing %q (%v)\n", s.Scenario, p.need, ocs)
 			os.Exit(2)
 		}
 		if p.scenario == "S1" && !p.freeSwitch {
